@@ -211,6 +211,15 @@ Theorem paris_source_valid (R : rounding) (hinf : Q) (n : nat) (G : entries) (wo
 Proof. exact (C07Compose.paris_source_valid R hinf n G wout win D m t). Qed.
 Print Assumptions paris_source_valid.
 
+(** Obligation over the generated term [paris_src_tie_exact] (harness/translators/paris.py, regenerated from
+    paris.pyx on every run): the tie branch of the nearest-neighbour scan is exactly [elif sim == max_sim:] followed by
+    [nearest_neighbor = min(neighbor, nearest_neighbor)].  [paris_total] above (no KeyError, at most 3n + 2 chain
+    steps) is proved for this exact smallest-index tie rule ONLY: with a tolerance test — not transitive, dependent on
+    the scan order — the chain can cycle a -> b -> c -> a forever. *)
+Theorem paris_source_tie_exact : paris_src_tie_exact = true.
+Proof. exact C07Compose.paris_source_tie_exact. Qed.
+Print Assumptions paris_source_tie_exact.
+
 (** * 5. split_dendrogram (bipartite input) *)
 
 Theorem split_dendrogram_valid (D : dendrogram) (n1 n2 : nat) :
